@@ -601,7 +601,11 @@ def check_conde_fold(ctx, lib, rule, mode):
             lossy = [n for n in names if n not in ONE_TO_ONE and n != "rev"]
             good_src = unify(clauses, src) is not None
             desc = None
-            if good_src and rev and not lossy:
+            # `if let Some((first, rest)) = clauses.split_first()`: the loop runs over `rest` (= clauses[1..]) reversed
+            sf_rest = ("proj", ("proj", ("call", sym.P("split_first"), (clauses,)), sym.P("Some"), 0), "tuple", 1)
+            if unify(sf_rest, src) is not None and rev and not lossy:
+                desc = "reversed-without-first"
+            elif good_src and rev and not lossy:
                 desc = "all-reversed"
             elif good_src and rev and lossy == ["take"] and names.index("take") > names.index("rev"):
                 tk = [n for n in chain if n[0] == "take"][0][1]
@@ -618,7 +622,11 @@ def check_conde_fold(ctx, lib, rule, mode):
             order.append(desc)
         else:
             first = ("index", clauses, sym.ANY)
-            if unify(first, who) is None or "Pu128(0)" not in str(who[2]):
+            sf_first = ("proj", ("proj", ("call", sym.P("split_first"), (clauses,)), sym.P("Some"), 0), "tuple", 0)
+            fst = ("proj", ("call", sym.P("first"), (clauses,)), sym.P("Some"), 0)
+            if unify(sf_first, who) is not None or unify(fst, who) is not None:
+                pass  # clause 0 by split_first() / first()
+            elif unify(first, who) is None or "Pu128(0)" not in str(who[2]):
                 ctx.violation(rule, key + "|first", site, "the separately handled clause must be clause 0: %s" % show(who, maxdepth=4))
                 ok = False
             order.append("first")
